@@ -24,6 +24,11 @@ pub assume_specification [<DeltaElements as Default>::default] () -> (r: DeltaEl
 /// ASSUMED (std): mem::take hands out the old value and leaves T::default() behind
 pub assume_specification<T: Default> [core::mem::take::<T>] (dest: &mut T) -> (r: T) ensures r == *old(dest), call_ensures(T::default, (), *final(dest));
 
+/// two snapshots hold the same objects for every publisher (they may differ in the random path component)
+pub uninterp spec fn same_content(a: SnapshotData, b: SnapshotData) -> bool;
+/// VERIFIED in unit c11_snapshot (same content for every publisher); assumed here
+pub assume_specification [SnapshotData::clone_with_new_random] (s: &SnapshotData) -> (r: SnapshotData) ensures same_content(r, *s);
+pub assume_specification [RrdpSession::random] () -> (r: RrdpSession);
 /// the statement: the retained deltas form a contiguous run ending at the current serial (newest first)
 pub open spec fn contiguous(s: RrdpServer) -> bool {
     forall |i: int| 0 <= i < s.deltas@.len() ==> (#[trigger] s.deltas@[i]).serial + i == s.serial
@@ -46,6 +51,8 @@ pub mod uri { pub struct Https(pub u8); }
 pub type PathBuf = std::path::PathBuf;
 impl SnapshotData { pub fn apply_delta(&mut self, _p: &PublisherHandle, _d: DeltaElements) { unimplemented!() } }
 impl DeltaElements { pub fn append(&mut self, _o: DeltaElements) { unimplemented!() } }
+impl SnapshotData { pub fn clone_with_new_random(&self) -> SnapshotData { unimplemented!() } }
+impl RrdpSession { pub fn random() -> RrdpSession { unimplemented!() } }
 impl From<StagedElements> for DeltaElements { fn from(_s: StagedElements) -> Self { unimplemented!() } }
 impl Default for DeltaElements { fn default() -> Self { unimplemented!() } }
 ''')
@@ -64,7 +71,11 @@ impl Default for DeltaElements { fn default() -> Self { unimplemented!() } }
             ('assumed_keeps_a_prefix', 'final(self).deltas@.len() <= old(self).deltas@.len() && final(self).deltas@ == old(self).deltas@.subrange(0, final(self).deltas@.len() as int)'),
             ('assumed_rest_untouched', '''final(self).serial == old(self).serial && final(self).snapshot == old(self).snapshot && final(self).session == old(self).session
                     && final(self).staged_elements == old(self).staged_elements && final(self).last_update == old(self).last_update''')]),
+        U.fn(RR, 'RrdpServer', 'reset_session', ensures=[
+            ('new_session_starts_from_exactly_the_published_state', 'same_content(r.snapshot, self.snapshot)')]),
         U.fn(RR, 'RrdpServer', 'apply_session_reset', ensures=[
+            ('snapshot_and_session_are_those_of_the_reset', 'final(self).snapshot == reset.snapshot && final(self).session == reset.session'),
+            ('staging_area_untouched', 'final(self).staged_elements == old(self).staged_elements'),
             ('restarts_at_serial_one_without_deltas', 'final(self).serial == 1 && final(self).deltas@.len() == 0'),
             ('contiguous_afterwards', 'contiguous(*final(self))')]),
         U.fn(RR, 'RrdpServer', 'apply_rrdp_updated', clone_loops=(0,), attrs=['#[verifier::loop_isolation(false)]'],
